@@ -1,4 +1,5 @@
 import CaoProofs.Props.C09
+import CaoProofs.Lemmas.CrossLemmas
 import CaoModel.Driver.VmEngine
 /-!
 # C18 — host functions
@@ -11,10 +12,20 @@ import CaoModel.Driver.VmEngine
 * (g) `nativeConv_go`, `nativeConv_ok`, `nativeConv_err`, `nativeConv_order`, `toI64_*` and the
   evaluated examples (argument order, result, wrapped errors, unknown handle).
 * (h) `register_reserved` — the registration step of the driver.
-* (f) `exec_call_native` (a host function calling a native function value), `enterScript_ok`,
-  `run_function_frames` (script callees: frames restored iff the callee's `Return` ran),
-  `run_function_frames_Full`, `exit_leaks_frame`, `not_run_function_frames_Full` (the unconditional
-  statement is false in the model: a callee that executes `Exit`).
+* (f) `exec_call_native` (a host function calling a native function value), `enterScript_ok`;
+  after the repair of `run_function` (it pops the call stack back to its entry depth however the
+  callee ended): `run_function_no_leak` (NO hypothesis, every outcome, every fuel: `run_function`
+  never leaves a call frame behind), `run_function_frames` (programs with control-flow integrity
+  `Cfi` — all compiled programs, `C04.call_cfi_eq`/`C04b.compiled_call_cfi_eq` — on a call stack of
+  good return addresses: when `run_function` returns, the call stack is exactly as before),
+  `run_function_frames_ok` (the state-level corollary), `run_function_frames_script` (the old
+  partial theorem, now a corollary of `enterScript_ok`), `exit_in_callee_no_leak` (was
+  `exit_leaks_frame`, K6: the same witness now ends with the frames restored),
+  `abort_in_callee_ends_only_callee` (what remains of K6: `Exit` in a callee of `run_function` ends
+  the callee only, the script that called the host function continues),
+  `run_function_frames_Full`/`not_run_function_frames_Full` (the statement without ANY hypothesis
+  on the program is still false, now only for ill-formed bytecode whose last instruction is not
+  `Exit`: `badProg`), `run_function_frames_all_Full` (open: the `Cfi` statement for failing runs).
 -/
 namespace Cao.C18
 open Cao Cao.Vm Cao.Gc Cao.C02 Cao.C05 Cao.Native Cao.C09
@@ -670,9 +681,8 @@ theorem exec_call_native (p : Prog) (gas : Nat) {a : Nat} {h : UInt32} {s s' : V
       exact hslots i hi
 
 /-- **a host function calling a script function or closure**: `run_function` pushes the callee's
-    frame twice, runs the dispatch loop at the callee's label, and when the loop exits pops ONE
-    frame and the result; so the call stack is restored exactly when the callee's own `Return`
-    has popped the other one -/
+    frame twice, runs the dispatch loop at the callee's label, and when the loop exits pops the
+    call stack back to its entry depth (repaired; before: it popped ONE frame) and the result -/
 theorem enterScript_ok (p : Prog) (gas : Nat) {s s' : VmState} {label : UInt32} {arity : Nat}
     {closure : Option Nat} {v : Option Val}
     (hok : enterScript p gas s label arity closure = (s', .ok v)) :
@@ -681,7 +691,8 @@ theorem enterScript_ok (p : Prog) (gas : Nat) {s s' : VmState} {label : UInt32} 
       exec p gas (.loop pos) { s with frames := s.frames ++
         [⟨pos, p.bytecode.size - 1, s.stack.count - arity, closure⟩,
          ⟨pos, p.bytecode.size - 1, s.stack.count - arity, closure⟩] } = (sL, .ok w) ∧
-      s'.frames = sL.frames.dropLast ∧ s'.stack = sL.stack.pop.1 ∧ v = some sL.stack.pop.2 := by
+      s'.frames = sL.frames.take s.frames.length ∧ s'.stack = sL.stack.pop.1 ∧
+      v = some sL.stack.pop.2 := by
   unfold enterScript at hok
   split at hok
   · simp [failAt] at hok
@@ -694,7 +705,7 @@ theorem enterScript_ok (p : Prog) (gas : Nat) {s s' : VmState} {label : UInt32} 
       · simp [failAt] at hok
       · rename_i hcap1
         split at hok
-        · simp [failAt] at hok
+        · simp at hok
         · rename_i hcap2
           split at hok
           · rename_i sL w heq
@@ -704,10 +715,100 @@ theorem enterScript_ok (p : Prog) (gas : Nat) {s s' : VmState} {label : UInt32} 
             · rw [← hok.1]
           · simp at hok
 
-/-- the full statement "after `run_function` the call stack is as before" … -/
-def run_function_frames_Full : Prop :=
-  ∀ (p : Prog) (gas : Nat) (f : Val) (s s' : VmState) (v : Option Val),
-    exec p gas (.call f) s = (s', .ok v) → s'.frames = s.frames
+/-! #### the call stack after `run_function` -/
+
+/-- "no call frame is left behind" -/
+def NoLeak (s s' : VmState) : Prop := s'.frames.length ≤ s.frames.length
+
+instance : Cross.SameFrames NoLeak where
+  refl _ := Nat.le_refl _
+  trans h1 h2 := Nat.le_trans h2 h1
+  of_frames h := by unfold NoLeak; rw [h]; exact Nat.le_refl _
+
+theorem enterScript_no_leak (p : Prog) (gas : Nat) (s : VmState) (l : UInt32) (ar : Nat)
+    (c : Option Nat) : NoLeak s (enterScript p gas s l ar c).1 := by
+  unfold enterScript NoLeak
+  split
+  · exact Nat.le_refl _
+  · dsimp only
+    split
+    · exact Nat.le_refl _
+    split
+    · exact Nat.le_refl _
+    split
+    · exact Nat.le_refl _
+    split
+    · show (List.take _ _).length ≤ _
+      rw [List.length_take]; exact Nat.min_le_left _ _
+    · show (List.take _ _).length ≤ _
+      rw [List.length_take]; exact Nat.min_le_left _ _
+
+/-- **`run_function` never leaves a call frame behind** — for every program (well-formed or not),
+    every callee value, every state, every amount of fuel and EVERY outcome (the callee returned,
+    executed `Exit` itself, failed, the call stack overflowed, a host function failed, the budget
+    or the fuel ran out): the call stack is not deeper afterwards than it was before.  (Before the
+    repair: a failing script callee left two frames behind, K8, an `abort` in it one, K6.) -/
+theorem run_function_no_leak (p : Prog) : ∀ (gas : Nat) (f : Val) (s : VmState),
+    (exec p gas (.call f) s).1.frames.length ≤ s.frames.length := by
+  intro gas
+  induction gas with
+  | zero => intro f s; rw [exec_zero]; exact Nat.le_refl _
+  | succ gas ih =>
+    intro f s
+    have hre : ∀ f, Pres NoLeak (reenterOf p gas f) := fun f => pres_liftRun (fun s => ih f s)
+    rw [exec_call]
+    split
+    · split
+      · next h _ =>
+        have h2 := (Cross.fpres_callNative (R := NoLeak) _ hre h).rel s
+        split
+        · next s' heq => rw [heq] at h2; exact h2
+        · next e s' heq => rw [heq] at h2; exact h2
+      · exact enterScript_no_leak p gas s _ _ _
+      · exact enterScript_no_leak p gas s _ _ _
+      · exact Nat.le_refl _
+    · exact Nat.le_refl _
+
+/-- **after `run_function` the call stack is as before** (was `run_function_frames_Full`, which
+    is false without a hypothesis on the program, see `not_run_function_frames_Full`): for a
+    program with control-flow integrity (`Cfi p G`: the addresses in `G` hold instructions, are
+    closed under fall-through and jumps, contain the labels, and the last instruction is `Exit` —
+    every compiled program, `C04.wf_cfi`) and a call stack whose return addresses are in `G`,
+    whenever `run_function` returns — whether the callee returned to the trap frame or executed
+    `Exit` itself through an `abort` card — the call stack is exactly the one it was called on,
+    for every fuel. -/
+theorem run_function_frames {G : Nat → Prop} (p : Prog) (hc : Cfi p G) (gas : Nat) (f : Val)
+    (s : VmState) (hg : Good G s.frames) :
+    ExecPost (fun fs' => fs' = s.frames) (fun _ => True) (exec p gas (.call f) s) :=
+  execPost_mono ((exec_cfi (E := fun _ => True) p hc gas).2 f s hg) (fun _ h => h.1)
+
+/-- the same on states -/
+theorem run_function_frames_ok {G : Nat → Prop} (p : Prog) (hc : Cfi p G) (gas : Nat) (f : Val)
+    {s s' : VmState} {v : Option Val} (hg : Good G s.frames)
+    (hok : exec p gas (.call f) s = (s', .ok v)) : s'.frames = s.frames := by
+  have h := run_function_frames p hc gas f s hg
+  unfold ExecPost at h
+  rw [hok] at h
+  exact h
+
+/-- the statement for failing runs too — OPEN (not proved, no counterexample known): the
+    control-flow-integrity induction (`NoPanicExec.exec_cfi`) describes the call stack only of runs
+    that return; what is proved for failing runs is `run_function_no_leak` (not deeper) -/
+def run_function_frames_all_Full : Prop :=
+  ∀ (G : Nat → Prop) (p : Prog), Cfi p G → ∀ (gas : Nat) (f : Val) (s : VmState), Good G s.frames →
+    (exec p gas (.call f) s).1.frames = s.frames
+
+/-- the old partial statement for script callees (a corollary of `enterScript_ok`): the call stack
+    is the loop's call stack cut at the entry depth; so it is restored as soon as the loop ended on
+    an extension of the caller's call stack (before the repair: only if it ended exactly one frame
+    above it) -/
+theorem run_function_frames_script (p : Prog) (gas : Nat) {s s' : VmState} {label : UInt32}
+    {arity : Nat} {closure : Option Nat} {v : Option Val}
+    (hok : enterScript p gas s label arity closure = (s', .ok v)) :
+    ∃ (sL : VmState), s'.frames = sL.frames.take s.frames.length ∧
+      (∀ rest, sL.frames = s.frames ++ rest → s'.frames = s.frames) := by
+  obtain ⟨l, pos, sL, w, -, -, -, -, hfr, -, -⟩ := enterScript_ok p gas hok
+  exact ⟨sL, hfr, fun rest h => by rw [hfr, h, List.take_left' rfl]⟩
 
 /-- a program whose only instruction is `Exit`, as the callee of `run_function` -/
 def exitProg : Prog :=
@@ -716,14 +817,83 @@ def exitVm : VmState :=
   { VmState.fresh { stackSize := 8, callStackSize := 8 } with
     heap := { objs := [(1, .fn 0 0)], next := 2 }, remaining := 10 }
 
-/-- … is FALSE in the model: a script callee that executes `Exit` (the `abort` card) instead of
-    `Return` makes `run_function` succeed with one call frame too many -/
-theorem exit_leaks_frame : ∃ s' v, exec exitProg 3 (.call (.obj 1)) exitVm = (s', .ok v) ∧
-    s'.frames.length = exitVm.frames.length + 1 := by
+/-- (was `exit_leaks_frame`, K6) a script callee that executes `Exit` (the `abort` card) instead of
+    `Return`: `run_function` succeeds — and the call stack is restored (before the repair it was
+    one frame too deep) -/
+theorem exit_in_callee_no_leak : ∃ s' v, exec exitProg 3 (.call (.obj 1)) exitVm = (s', .ok v) ∧
+    s'.frames = exitVm.frames := by
   have h : (match exec exitProg 3 (.call (.obj 1)) exitVm with
-    | (s', .ok _) => s'.frames.length == 1 && exitVm.frames.length == 0
+    | (s', .ok _) => s'.frames.length == 0 && exitVm.frames.length == 0
     | _ => false) = true := by decide +kernel
   rcases hr : exec exitProg 3 (.call (.obj 1)) exitVm with ⟨s', (e | v)⟩
+  · rw [hr] at h; simp at h
+  · rw [hr] at h
+    simp only [Bool.and_eq_true, beq_iff_eq, List.length_eq_zero_iff] at h
+    exact ⟨s', v, rfl, by rw [h.1, h.2]⟩
+
+/-- `exitProg` has control-flow integrity: the witness is an instance of `run_function_frames` -/
+example : Cfi exitProg (fun a => a = 0) where
+  valid src h := by subst h; decide
+  seq src sp h _ hne := by subst h; exact absurd rfl hne
+  jump src h hj := by subst h; revert hj; decide
+  label l hl := by
+    simp only [exitProg, List.mem_singleton] at hl
+    subst hl; rfl
+  last := rfl
+  lastExit := rfl
+example : Good (fun a => a = 0) exitVm.frames := fun _ h => nomatch h
+
+/-- little-endian bytes of a handle -/
+def le32 (n : Nat) : Array UInt8 :=
+  #[UInt8.ofNat n, UInt8.ofNat (n / 256), UInt8.ofNat (n / 65536), UInt8.ofNat (n / 16777216)]
+
+/-- `main` (at 0): `papply(h)`, then `global 0 := 42`, `Exit`; `h` (label 7, at 28): `Exit` -/
+def contProg : Prog :=
+  { bytecode := #[Compiler.op.functionPointer, 7, 0, 0, 0, 0, 0, 0, 0, Compiler.op.callNative] ++
+      le32 (hName "papply").toNat ++
+      #[Compiler.op.scalarInt, 42, 0, 0, 0, 0, 0, 0, 0, Compiler.op.setGlobalVar, 0, 0, 0, 0,
+        Compiler.op.exit],
+    data := #[], labels := [(7, 28)], varNames := [], trace := [] }
+
+/-- **what remains of K6**: an `abort` (`Exit`) inside a function that a host function calls back
+    through `run_function` does NOT stop the program: it ends only the callee — `run_function`
+    returns `nil` to the host function (`papply` writes its log line and hands the `nil` on: it is
+    the value left on the stack), and the script that called the host function continues (it
+    writes `42` to the global `0` and ends normally, after 6 dispatched instructions: 2 before the
+    callback, the callee's `Exit`, 3 after it), on an empty call stack -/
+theorem abort_in_callee_ends_only_callee :
+    (match run contProg 100 (VmState.fresh { stackSize := 8, callStackSize := 8 }) with
+     | (s', none) => s'.globals == [.int 42] && s'.hostLog.length == 1 &&
+         s'.stack.count == 1 && s'.stack.peekLast 0 == .nil &&
+         s'.dispatches == 6 && s'.frames.length == 0
+     | (_, some _) => false) = true := by decide +kernel
+
+/-- the statement "after `run_function` the call stack is as before" WITHOUT a hypothesis on the
+    program … -/
+def run_function_frames_Full : Prop :=
+  ∀ (p : Prog) (gas : Nat) (f : Val) (s s' : VmState) (v : Option Val),
+    exec p gas (.call f) s = (s', .ok v) → s'.frames = s.frames
+
+/-- ill-formed bytecode (never produced by the compiler, rejected by `Bytecode.WF`): the last
+    instruction, to which the trap frame of `run_function` returns, is `Return` instead of `Exit` -/
+def badProg : Prog :=
+  { bytecode := #[Compiler.op.exit, Compiler.op.ret], data := #[], labels := [(0, 1)],
+    varNames := [], trace := [] }
+def badVm : VmState :=
+  { VmState.fresh { stackSize := 8, callStackSize := 8 } with
+    frames := [⟨0, 0, 0, none⟩, ⟨0, 1, 0, none⟩],
+    heap := { objs := [(1, .fn 0 0)], next := 2 }, remaining := 10 }
+
+/-- … is still FALSE in the model, but no longer because of `Exit` in a callee (K6): only for
+    bytecode without control-flow integrity — here the callee's `Return` returns to a `Return`,
+    which pops the CALLER's frames (popping back to the entry depth cannot restore those); the
+    run ends one frame short -/
+theorem bad_program_loses_frame : ∃ s' v, exec badProg 9 (.call (.obj 1)) badVm = (s', .ok v) ∧
+    s'.frames.length + 1 = badVm.frames.length := by
+  have h : (match exec badProg 9 (.call (.obj 1)) badVm with
+    | (s', .ok _) => s'.frames.length == 1 && badVm.frames.length == 2
+    | _ => false) = true := by decide +kernel
+  rcases hr : exec badProg 9 (.call (.obj 1)) badVm with ⟨s', (e | v)⟩
   · rw [hr] at h; simp at h
   · rw [hr] at h
     simp only [Bool.and_eq_true, beq_iff_eq] at h
@@ -731,20 +901,9 @@ theorem exit_leaks_frame : ∃ s' v, exec exitProg 3 (.call (.obj 1)) exitVm = (
 
 theorem not_run_function_frames_Full : ¬ run_function_frames_Full := by
   intro hfull
-  obtain ⟨s', v, hrun, hlen⟩ := exit_leaks_frame
+  obtain ⟨s', v, hrun, hlen⟩ := bad_program_loses_frame
   have := hfull _ _ _ _ _ _ hrun
   rw [this] at hlen
   omega
-
-/-- the corrected statement for script callees: the call stack is restored iff the callee's loop
-    ended one frame above the caller (its `Return` was executed) -/
-theorem run_function_frames (p : Prog) (gas : Nat) {s s' : VmState} {label : UInt32} {arity : Nat}
-    {closure : Option Nat} {v : Option Val}
-    (hok : enterScript p gas s label arity closure = (s', .ok v)) :
-    ∃ (sL : VmState) (fr : Frame), s'.frames = sL.frames.dropLast ∧
-      (sL.frames = s.frames ++ [fr] → s'.frames = s.frames) := by
-  obtain ⟨l, pos, sL, w, -, -, -, -, hfr, -, -⟩ := enterScript_ok p gas hok
-  exact ⟨sL, ⟨pos, p.bytecode.size - 1, s.stack.count - arity, closure⟩, hfr,
-    fun h => by rw [hfr, h, List.dropLast_concat]⟩
 
 end Cao.C18
